@@ -1,5 +1,6 @@
 import DimodModel.SampleSet
 import DimodModel.SampleSetMore
+import DimodModel.AsSamplesDispatch
 import DimodModel.Wire
 open Wire SSM
 
@@ -84,6 +85,103 @@ def parseLOp? (s : String) : Option LOp :=
   | ["C", ip, vt, off] => do let vt ← parseVT? vt; let off ← parseRat? off; pure (LOp.changeVt vt off (ip = "1"))
   | _ => none
 
+/-! ### every `as_samples` form (`DimodModel/AsSamplesDispatch.lean`): prefix notation, tokens separated by `!`:
+    `M!items!flt` | `A!src!shape` | `T!src!shape!labels` | `TM!items!flt!labels` | `TI!labels` | `TL!k` |
+    `S!labels!rows!dt` | `I!k!<k forms>` | `Q!k!<k forms>`; `src` = `p<dt>` / `n<dt>`; `shape` = `0:x` | `1:row` |
+    `2:w:rows` | `3` -/
+
+open SSM.Dispatch in
+def parseDT? : String → Option DT
+  | "b" => some .bool | "i8" => some .int8 | "i16" => some .int16 | "i32" => some .int32 | "i64" => some .int64
+  | "f32" => some .float32 | "f64" => some .float64 | _ => none
+
+open SSM.Dispatch in
+def showDT : DT → String
+  | .bool => "b" | .int8 => "i8" | .int16 => "i16" | .int32 => "i32" | .int64 => "i64" | .float32 => "f32" | .float64 => "f64"
+
+open SSM.Dispatch in
+def parseSrc? (s : String) : Option Src :=
+  if s.startsWith "p" then (parseDT? (s.drop 1).toString).map .py
+  else if s.startsWith "n" then (parseDT? (s.drop 1).toString).map .nd
+  else none
+
+/-- rows separated by `|`, an empty row is `-`, no rows at all is `~` -/
+def parseRows? (s : String) : Option (List (List Rat)) :=
+  if s = "~" then some [] else (s.splitOn "|").mapM (parseRats? ",")
+
+open SSM.Dispatch in
+def parseShape? (s : String) : Option Shape :=
+  match s.splitOn ":" with
+  | ["0", x] => (parseRat? x).map .d0
+  | ["1", row] => (parseRats? "," row).map .d1
+  | ["2", w, rows] => do
+    let w ← w.toNat?
+    let rows ← parseRows? rows
+    pure (.d2 rows w)
+  | ["3"] => some .d3
+  | _ => none
+
+def parseItems? (s : String) : Option (List (Label × Rat)) :=
+  (splitOr "," s).mapM fun (kv : String) =>
+    match kv.splitOn "=" with
+    | [k, v] => do let k ← parseLabel? k; let v ← parseRat? v; pure (k, v)
+    | _ => none
+
+open SSM.Dispatch in
+def parseForm? : Nat → List String → Option (Form × List String)
+  | 0, _ => none
+  | fuel + 1, toks =>
+    match toks with
+    | "M" :: items :: flt :: rest => (parseItems? items).map fun it => (.mapping it (flt = "1"), rest)
+    | "A" :: src :: sh :: rest => do
+      let src ← parseSrc? src; let sh ← parseShape? sh; pure (.array ⟨src, sh⟩, rest)
+    | "T" :: src :: sh :: ls :: rest => do
+      let src ← parseSrc? src; let sh ← parseShape? sh; let ls ← parseLabels? ls; pure (.tuple ⟨src, sh⟩ ls, rest)
+    | "TM" :: items :: flt :: ls :: rest => do
+      let it ← parseItems? items; let ls ← parseLabels? ls; pure (.tupleMapping it (flt = "1") ls, rest)
+    | "TI" :: ls :: rest => (parseLabels? ls).map fun ls => (.tupleIterator ls, rest)
+    | "TL" :: k :: rest => k.toNat?.map fun k => (.tupleLen k, rest)
+    | "S" :: ls :: rows :: dt :: rest => do
+      let ls ← parseLabels? ls
+      let rows ← parseRows? rows
+      let dt ← parseDT? dt
+      pure (.sampleset ls rows dt, rest)
+    | "I" :: k :: rest => do
+      let k ← k.toNat?
+      let (l, rest) ← many fuel k rest
+      pure (.iterator l, rest)
+    | "Q" :: k :: rest => do
+      let k ← k.toNat?
+      let (l, rest) ← many fuel k rest
+      pure (.sequence l, rest)
+    | _ => none
+where
+  many (fuel : Nat) : Nat → List String → Option (List SSM.Dispatch.Form × List String)
+    | 0, toks => some ([], toks)
+    | k + 1, toks => do
+      let (f, rest) ← parseForm? fuel toks
+      let (fs, rest) ← many fuel k rest
+      pure (f :: fs, rest)
+
+def SSM.Dispatch.parseFormTop? (form : String) : Option SSM.Dispatch.Form :=
+  match parseForm? 64 (form.splitOn "!") with
+  | some (f, []) => some f
+  | _ => none
+
+open SSM.Dispatch in
+def showOut (o : Out) : String :=
+  s!"{if o.labelsAreVariables then 1 else 0};{showDT o.dtype};{o.rows.length}x{o.width};{listOr "," showLabel o.labels};{listOr "|" (listOr "," showRat) o.rows}"
+
+open SSM.Dispatch in
+def runForm (dt cp ord lv form : String) : String :=
+  match (if dt = "-" then some none else (parseDT? dt).map some), parseForm? 64 (form.splitOn "!") with
+  | some dt, some (f, []) =>
+    match run { dtype := dt, copy := cp = "1", fOrder := ord = "1", labelsVariables := lv = "1" } f with
+    | .ok o => "ok " ++ showOut o
+    | .error .value => "err value"
+    | .error .type => "err type"
+  | _, _ => "bad-op"
+
 abbrev Regs := List (Nat × LSS)
 
 def Regs.get? (r : Regs) (k : Nat) : Option LSS := (r.find? (·.1 = k)).map (·.2)
@@ -154,6 +252,9 @@ def step (regs : Regs) (line : String) : Regs × String :=
   | ["drop", r, d, ls] => match parseLabels? ls with
     | some ls => valOp regs r d (fun s => s.drop ls)
     | none => (regs, "bad-op")
+  | ["appendform", r, d, sort, form] => match SSM.Dispatch.parseFormTop? form with
+    | some f => valOp regs r d (fun s => SSM.Dispatch.appendVariablesForm s f (sort = "1"))
+    | none => (regs, "bad-op")
   | ["appendvars", r, d, sort, ls, rows] => match parseLabels? ls, (splitOr "|" rows).mapM (parseRats? ",") with
     | some ls, some rows => valOp regs r d (fun s => s.appendVars ls rows (sort = "1"))
     | _, _ => (regs, "bad-op")
@@ -194,6 +295,7 @@ def step (regs : Regs) (line : String) : Regs × String :=
   | ["assamples", fixed, form] => match (splitOr "|" form).mapM parseSampleLike? with
     | some l => (regs, match asSamplesIter (fixed = "1") l with | some t => "ok " ++ showTable t | none => "err")
     | none => (regs, "bad-op")
+  | ["asform", dt, cp, ord, lv, form] => (regs, runForm dt cp ord lv form)
   | ["astuple", ls, rows] => match parseLabels? ls, (splitOr "|" rows).mapM (parseRats? ",") with
     | some ls, some rows => (regs, match asSamplesTuple rows ls with | some t => "ok " ++ showTable t | none => "err")
     | _, _ => (regs, "bad-op")
